@@ -194,26 +194,7 @@ fn gen_prefix(g: &mut Gen, high_extreme_ok: bool) -> Vec<u64> {
 /// validation lets it through anywhere, running that machine must still not crash)
 pub fn rejected_dist(g: &mut Gen) -> Dist {
     for _ in 0..200 {
-        let bad = |g: &mut Gen| -> f64 {
-            *g.pick(&[f64::NAN, f64::INFINITY, f64::NEG_INFINITY, -1.0, 0.0, 1e300, -1e300, 2.0, 1e43])
-        };
-        let dt = match g.below(11) {
-            0 => {
-                let a = bad(g);
-                DistType::Uniform { low: a, high: if g.bool() { a - 1.0 } else { bad(g) } }
-            }
-            1 => DistType::Normal { mean: bad(g), stdev: bad(g) },
-            2 => DistType::SkewNormal { location: bad(g), scale: bad(g), shape: bad(g) },
-            3 => DistType::LogNormal { mu: bad(g), sigma: bad(g) },
-            4 => DistType::Binomial { trials: *g.pick(&[2_000_000_000u64, u64::MAX, 10]), probability: *g.pick(&[1e-12, 2.0, -0.5, f64::NAN]) },
-            5 => DistType::Geometric { probability: *g.pick(&[1e-12, 2.0, -0.5, f64::NAN]) },
-            6 => DistType::Pareto { scale: bad(g), shape: bad(g) },
-            7 => DistType::Poisson { lambda: *g.pick(&[f64::INFINITY, 1e43, -1.0, 0.0, f64::NAN]) },
-            8 => DistType::Weibull { scale: bad(g), shape: bad(g) },
-            9 => DistType::Gamma { scale: bad(g), shape: bad(g) },
-            _ => DistType::Beta { alpha: bad(g), beta: bad(g) },
-        };
-        let d = Dist::new(dt, 0.0, 0.0);
+        let d = hostile_candidate(g);
         if d.validate().is_err() {
             return d;
         }
@@ -221,10 +202,35 @@ pub fn rejected_dist(g: &mut Gen) -> Dist {
     Dist::new(DistType::Uniform { low: 2.0, high: 1.0 }, 0.0, 0.0)
 }
 
+/// one distribution with hostile parameters (NaN, infinities, negative, huge), NOT filtered by
+/// validation: whatever validation lets through is sampled like any other validated distribution
+pub fn hostile_candidate(g: &mut Gen) -> Dist {
+    let bad = |g: &mut Gen| -> f64 {
+        *g.pick(&[f64::NAN, f64::INFINITY, f64::NEG_INFINITY, -1.0, 0.0, 1e300, -1e300, 2.0, 1e43])
+    };
+    let dt = match g.below(11) {
+        0 => {
+            let a = bad(g);
+            DistType::Uniform { low: a, high: if g.bool() { a - 1.0 } else { bad(g) } }
+        }
+        1 => DistType::Normal { mean: bad(g), stdev: bad(g) },
+        2 => DistType::SkewNormal { location: bad(g), scale: bad(g), shape: bad(g) },
+        3 => DistType::LogNormal { mu: bad(g), sigma: bad(g) },
+        4 => DistType::Binomial { trials: *g.pick(&[2_000_000_000u64, u64::MAX, 10]), probability: *g.pick(&[1e-12, 2.0, -0.5, f64::NAN]) },
+        5 => DistType::Geometric { probability: *g.pick(&[1e-12, 2.0, -0.5, f64::NAN]) },
+        6 => DistType::Pareto { scale: bad(g), shape: bad(g) },
+        7 => DistType::Poisson { lambda: *g.pick(&[f64::INFINITY, 1e43, -1.0, 0.0, f64::NAN]) },
+        8 => DistType::Weibull { scale: bad(g), shape: bad(g) },
+        9 => DistType::Gamma { scale: bad(g), shape: bad(g) },
+        _ => DistType::Beta { alpha: bad(g), beta: bad(g) },
+    };
+    Dist::new(dt, 0.0, 0.0)
+}
+
 fn gen_case(g: &mut Gen) -> Case {
     if g.chance(0.08) {
         return Case {
-            dist: rejected_dist(g),
+            dist: if g.bool() { rejected_dist(g) } else { hostile_candidate(g) },
             prefix: vec![],
             seed: g.u64(),
             samples: 4,
@@ -432,7 +438,7 @@ impl Engine for C13 {
             property: "C13",
             engine: "distsim",
             level: "exploration",
-            rule: "case = one validated distribution (65% from the corner generator: all 11 families at the bounds validation admits - probability 1e-9 / 1-1e-9, 1e9 trials, lambda 1e42, subnormal and 1e300 scales/shapes, low==high, adjacent floats, start/max NaN, +-inf, negative - 35% random parameters) x random source = scripted prefix of 0..64 extreme words (all-zero, all-one, alternating, 0x1ff, 2^63, top-k-bits, low bits) followed by a fair seeded stream; 4..16 samples drawn directly and the same stream through four framework consumers (timeout, timeout+duration+limit, timer duration+limit, counter values); oracle: returns, no panic, value not NaN, >= 0, <= max when max > 0; hang = RNG word budget (100000 per sample) or 2 s CPU per case; distinct = (distribution, prefix length, first word); non-trivial = non-empty scripted prefix".into(),
+            rule: "8% of the cases carry hostile parameters (NaN, infinities, negative, huge): half of them filtered to what validation rejects (offered to machine validation, never sampled), half unfiltered (sampled like any other if validation accepts them); otherwise case = one validated distribution (65% from the corner generator: all 11 families at the bounds validation admits - probability 1e-9 / 1-1e-9, 1e9 trials, lambda 1e42, subnormal and 1e300 scales/shapes, low==high, adjacent floats, start/max NaN, +-inf, negative - 35% random parameters) x random source = scripted prefix of 0..64 extreme words (all-zero, all-one, alternating, 0x1ff, 2^63, top-k-bits, low bits) followed by a fair seeded stream; 4..16 samples drawn directly and the same stream through four framework consumers (timeout, timeout+duration+limit, timer duration+limit, counter values); oracle: returns, no panic, value not NaN, >= 0, <= max when max > 0; hang = RNG word budget (100000 per sample) or 2 s CPU per case; distinct = (distribution, prefix length, first word); non-trivial = non-empty scripted prefix".into(),
             assumptions: vec![
                 "'a real number' is read as 'not NaN': +infinity is produced by validated LogNormal/Pareto/Weibull/Gamma parameters by construction and every consumer saturates it".into(),
                 "the trigger of known finding D5 (Binomial inversion path x draws next to 1) is generated at a reduced rate".into(),
